@@ -301,8 +301,10 @@ func (st *state) op(r *sim.Rand) {
 				err = st.b.DisableUplinkChannelIndex(j)
 			}
 			if err != nil {
-				if j >= len(st.std) {
-					simrt.Count(cNotJudged) // (a band may refuse to switch a custom slot; the model follows its answer)
+				if j >= len(st.std) || st.m.Chans[j].Enabled == enable {
+					// (a band may refuse to switch a custom slot, or a channel that
+					// is in the requested state already; the model follows its answer)
+					simrt.Count(cNotJudged)
 					continue
 				}
 				simrt.Report("p2.error-on-valid:block-op", fmt.Sprintf("%s: enable/disable of valid index %d failed: %v", st.name, j, err))
@@ -403,7 +405,7 @@ func (st *state) op(r *sim.Rand) {
 			return
 		}
 		simrt.Trace(evOp, 2, uint64(int64(i)))
-		st.judgeIdx("DisableUplinkChannelIndex", i, n, err)
+		st.judgeIdx("DisableUplinkChannelIndex", i, n, err, false)
 		if i >= 0 && i < n && err == nil {
 			st.m.Chans[i].Enabled = false
 		}
@@ -415,14 +417,14 @@ func (st *state) op(r *sim.Rand) {
 			return
 		}
 		simrt.Trace(evOp, 3, uint64(int64(i)))
-		st.judgeIdx("EnableUplinkChannelIndex", i, n, err)
+		st.judgeIdx("EnableUplinkChannelIndex", i, n, err, true)
 		if i >= 0 && i < n && err == nil {
 			st.m.Chans[i].Enabled = true
 		}
 	}
 }
 
-func (st *state) judgeIdx(fn string, i, n int, err error) {
+func (st *state) judgeIdx(fn string, i, n int, err error, on bool) {
 	valid := i >= 0 && i < n
 	if !valid {
 		simrt.Count(cBadIdx)
@@ -432,8 +434,11 @@ func (st *state) judgeIdx(fn string, i, n int, err error) {
 		return
 	}
 	if err != nil {
-		if i >= len(st.std) {
-			simrt.Count(cNotJudged) // (a band may refuse to switch a custom slot - say an unused one; the model follows its answer)
+		if i >= len(st.std) || st.m.Chans[i].Enabled == on {
+			// (a band may refuse to switch a custom slot - say an unused one - or
+			// a channel that is in the requested state already: the state the
+			// statement talks about is as requested; the model follows its answer)
+			simrt.Count(cNotJudged)
 			return
 		}
 		simrt.Report("p2.error-on-valid:"+fn, fmt.Sprintf("%s(%d) on a plan of %d channels returned %v", fn, i, n, err))
